@@ -74,6 +74,12 @@ CHECKS.update({
    note='Trusted: symx.absnp shape/cast/broadcast rules (2 560-case grid comparison with real NumPy 2.5 on every run), stand-in installed for containers.np and interfaces.np. The history quantifier is discharged by induction over the invariant. BaseLinker uses the same container class.'),
 })
 
+CHECKS.update({
+ 'C07': dict(cat='translation_validation', ref='4/C07', engine='symx+fir', tech="symbolic execution of the gfortran front-end IR (-fdump-tree-original) of the generated evaluate subroutine against the generated Python _evaluate over the same z3 arrays and canonical uninterpreted arithmetic with interpreted constants; LIA check of the index guards; replay on the machine code via gfortran -shared + ctypes",
+   text="Translation validation of the Fortran generator's evaluate routine: for every program of the common subset (bounded-exhaustive <=3 nodes, fixed multi-equation and 40-variable continuation-line programs, seeded samples) the source must compile and the compiler's own IR of evaluate is shown by z3 to leave every series equal to what the Python class computes, for ALL cells, positions t and span lengths (row r <-> NAMES[r-1], index = t+1, both spellings of t), with literals, integer division, index rewriting, row numbers and line wrapping all visible to the comparison; the IR's index guards accept exactly the feasible periods. The compiled solve_t/solve routines and the FortranEngine wrapper are NOT decided (outside the claim).",
+   note='Trusted: fir (parser of gfortran 12 GENERIC text; version-specific), IEEE-exact normalisations applied to both sides (commutativity, x+x=2x, sign motion, x**2=x*x, powi, symmetric max/min on non-NaN operands, |exp|=exp), finite data. Counterexamples replayed on real machine code at rtol 1e-12. solve_t/solve/wrapper outside (no f2py here; hundreds of lines of descriptor code each).'),
+})
+
 NOT_APPLICABLE = [
  ('C11', 'Independence of copies is a statement about object identity in the CPython heap; there is no input value to make symbolic, so a solver has nothing to decide (pointer-rich heaps are a weak target of the technique).'),
  ('C13', "Quantifies over strings only; everything it depends on sits behind CPython's re engine (look-ahead, \\b, lazy quantifiers, alternative priority), str.format and exec, none of which can be executed symbolically here (z3 regex theory lacks them; CrossHair's regex model is unsound on term_re and times out on split_equations)."),
